@@ -15,7 +15,103 @@ VALS = {
 }
 
 
+# CliArgv.tla's token universe -> real command lines
+ARGV_VALS = {"a_1": "http://t1.example/announce_1", "a_2": "udp://t2.example:6969/an_nounce-2", "w_1": "http://w1.example/my_files/",
+             "w_2": "ftp://w2.example/x_y-z", "h_1": "http://h1.example/seed_a-b", "s_1": "SRC_tag-1",
+             "c_1": "a comment with spaces, under_scores and dash-es", "15": "15"}
+ARGV_FLAGS = {"A": ("-a", "--announce", "--tracker"), "W": ("--web-seed",), "H": ("--http-seed",), "S": ("-s", "--source"),
+              "C": ("-c", "--comment"), "L": ("--piece-length",), "O": ("-o", "--out"), "P": ("-p", "--private"), "G": ("--align",)}
+ARGV_LONG = {"A": ("--announce", "--tracker"), "W": ("--web-seed",), "H": ("--http-seed",), "S": ("--source",),
+             "C": ("--comment",), "L": ("--piece-length",), "O": ("--out",)}
+
+
+def run_argv(case):
+    """One command line of CliArgv.tla's universe through the real front end.  Observed: the namespace argparse
+    hands to commands.create (captured at that boundary, then passed on) and the metafile that is written."""
+    sbx = new_sandbox("av")
+    try:
+        tree = case["tree"]
+        root = alpha.materialize(tree, os.path.join(sbx, "p"))
+        odir = os.path.join(sbx, "o")
+        os.makedirs(os.path.join(odir, "sub"))
+        requested = os.path.join(odir, "sub", "req.torrent")
+        k = case["id"]
+        real = dict(ARGV_VALS, PATH=root, o_1=requested)
+        back = {v: a for a, v in real.items()}
+        argv, given = ["create"], {}
+        for t in case["tokens"]:
+            if t[0] == "flag":
+                argv.append(ARGV_FLAGS[t[1]][k % len(ARGV_FLAGS[t[1]])])
+            elif t[0] == "eq":
+                argv.append("%s=%s" % (ARGV_LONG[t[1]][k % len(ARGV_LONG[t[1]])], real[t[2]]))
+            else:
+                argv.append(real[t[1]])
+        argv += ["--prog", "0"]
+        opts = {f: any(t[0] in ("flag", "eq") and t[1] == f for t in case["tokens"]) for f in "AWHPSCLVOG"}
+        want_l = case["want_lists"]
+        want = {"announce": [hexs(real[a]) for a in want_l["A"]], "urllist": [hexs(real[a]) for a in want_l["W"]],
+                "httpseeds": [hexs(real[a]) for a in want_l["H"]], "source": hexs(real["s_1"]), "comment": hexs(real["c_1"]),
+                "plen": 32768, "version": 1, "padneeded": not tree.get("single")}
+        rec = {"id": case["id"], "op": "argv", "group": "none", "clauses": case["clauses"], "route": "argv",
+               "opts": opts, "want": want, "status": "ok", "m": {"decodable": False, "has_info": False},
+               "outfile_ok": False, "new_files": 0, "rest_sig": "", "shape": [], "tokens": case["tokens"],
+               "ns": {"captured": False}}
+        expected_out = requested if opts["O"] else os.path.join(odir, tree["name"] + ".torrent")
+        before = snapshot(sbx)
+        cwd = os.getcwd()
+        os.chdir(odir)
+        import torrentfile.commands as tc
+        real_create = tc.create
+
+        def spy(args):
+            try:
+                d = vars(args)
+                atom = lambda x: back.get(x, "?") if isinstance(x, str) else "?"
+                lst = lambda x: [atom(y) for y in x] if isinstance(x, (list, tuple)) else ([] if not x else ["?"])
+                rec["ns"] = {"captured": True,
+                             "lists": {"A": lst(d.get("announce")), "W": lst(d.get("url_list")), "H": lst(d.get("httpseeds"))},
+                             "scalars": {"S": atom(d.get("source")) if d.get("source") is not None else "none",
+                                         "C": atom(d.get("comment")) if d.get("comment") is not None else "none",
+                                         "L": atom(str(d.get("piece_length"))) if d.get("piece_length") is not None else "none",
+                                         "O": atom(d.get("outfile")) if d.get("outfile") is not None else "none"},
+                             "switches": [f for f, key in (("P", "private"), ("G", "align")) if d.get(key)],
+                             "content": atom(d.get("content")) if d.get("content") is not None else "none", "error": False}
+            except Exception:
+                pass
+            return real_create(args)
+        tc.create = spy
+        try:
+            from torrentfile.cli import execute
+            execute(argv)
+        except SystemExit as ex:
+            rec["status"] = "exit:%s" % ex.code
+        except Exception as ex:
+            rec["status"] = "exc:" + type(ex).__name__
+        finally:
+            tc.create = real_create
+            os.chdir(cwd)
+        after = snapshot(sbx)
+        rec["new_files"] = len([x for x in after if x not in before and after[x][0] == "f"])
+        rec["outfile_ok"] = os.path.isfile(expected_out)
+        if rec["status"] == "ok" and rec["outfile_ok"]:
+            with open(expected_out, "rb") as fh:
+                raw = fh.read()
+            m = observe(raw)
+            m["has_pad"] = False
+            if m.get("decodable") and m.get("has_info"):
+                rootn, _, _ = bdecode_strict(raw)
+                files = rootn.get(b"info").get(b"files")
+                m["has_pad"] = bool(files is not None and any(e.get(b"attr") is not None for e in files.val))
+            rec["m"] = m
+            rec["rest_sig"] = rest_sig(raw)
+        return rec
+    finally:
+        rm(sbx)
+
+
 def run_cli(case):
+    if case.get("op") == "argv":
+        return run_argv(case)
     sbx = new_sandbox("cl")
     try:
         tree, opts, route = case["tree"], case["opts"], case["route"]
